@@ -9,8 +9,8 @@ NO_MSGS = ["No dependencies", "No exports", "No bindings", "No functions", "No i
 # violation keys of the search / ties (all repaired in /repo; they stay as regression classes):
 #   uasm-marker-in-text:<MARKER> (0f91cb1), uasm-test-assert-count-lost (69a2f06), uasm-string-reads-as-number:<s> (6da1960),
 #   uasm-complex-nonfinite (c00f690), uasm-float-not-roundtrip (41a5003), uasm-nan-sign-lost (1df8995),
-#   uasm-read-panics:<mutation>:<msg> (c00f690), uasm-read-crashes:<mutation> (OPEN for bad-numbers: known finding C17-read-segfault), uasm-reread-marks-wrong / uasm-reread-constant-malformed / uasm-reread-constant-count,
-#   uasm-reread-value-marks-wrong, uasm-value-meta-roundtrip-wrong, uasm-one-row-box-map-reads-as-list (OPEN: known finding C17-one-row-box-map), uasm-read-fails:<msg>, uasm-write-panics:<msg>, uasm-run-differs:<kind>:<program>, uasm-map-layout-differs
+#   uasm-read-panics:<mutation>:<msg> (c00f690), uasm-read-crashes:<mutation> (61c09df), uasm-reread-marks-wrong / uasm-reread-constant-malformed / uasm-reread-constant-count,
+#   uasm-reread-value-marks-wrong, uasm-value-meta-roundtrip-wrong, uasm-one-row-box-map-reads-as-list (55312e0), uasm-read-fails:<msg>, uasm-write-panics:<msg>, uasm-run-differs:<kind>:<program>, uasm-map-layout-differs
 
 
 def coq_text(s):
@@ -105,11 +105,11 @@ def run(r):
     r.assumptions += [
         "C17_framing_roundtrip (current reader: whole-line markers, TEST ASSERTS cut off first): every written line is newline-free, not blank, does not end in white space, the first line of a trimmed section does not start with white space (sections_wf) and every written line contains a character other than A-Z and blank (written_shape); both are checked on the real to_uasm output of every generated assembly by the framing tie",
         "C17_framing_roundtrip_pre / _refuted_pre / _mid / C17_test_asserts_lost_pre are records about the models of the readers before /repo 0f91cb1 and 69a2f06",
-        "C17_value_json_roundtrip(_fuel,_exact): only invariants of the term encoding - length(data) = product(shape) (wf_shape, C05), bytes <= 255, binary64 patterns < 2^64 (repr_ok); the result is the value itself except that an empty number array comes back with byte storage (norm); C17_label_json_roundtrip / C17_map_json_roundtrip / C17_meta_json_roundtrip add a top-level label or top-level map keys (ArrayRep::Full / ArrayRep::Map) under the same invariants, the map theorem with the premise map1_free (not a box array of shape [1]): that case is an OPEN defect (C17_map1_refuted, known finding C17-one-row-box-map, program `map [5] ≡□[1]`); the value tie evaluates meta_expect on every written value and compares it with what the implementation read back",
+        "C17_value_json_roundtrip(_fuel,_exact): only invariants of the term encoding - length(data) = product(shape) (wf_shape, C05), bytes <= 255, binary64 patterns < 2^64 (repr_ok); the result is the value itself except that an empty number array comes back with byte storage (norm); C17_label_json_roundtrip / C17_map_json_roundtrip / C17_meta_json_roundtrip add a top-level label or top-level map keys (ArrayRep::Full / ArrayRep::Map) under the same invariants with no further premise (C17_map1_refuted_pre is the record of the one-row box map defect repaired by /repo 55312e0; its programs `map [5] ≡□[1]` ... run first in the regression corpus); the reader's shape-against-data check (/repo 61c09df) is part of the model (check_shape, applied after the variant is chosen), dimensions are evaluated as unary numbers, so texts with dimensions above a few thousand are not given to the model; the value tie evaluates meta_expect on every written value and compares it with what the implementation read back",
         "C17_value_json_refuted_{string,complex,nan,map}_pre are records about the model of the representation before /repo 6da1960, c00f690, 1df8995, 71ff4d9",
         "C17_reread_marks_truthful is about the reader's scan over the comparisons of adjacent rows; that rows are compared as C15 models it is not re-proved here: the harness recomputes the comparisons with Value::cmp and the tie compares the model's marks with the implementation's flags",
         "run behaviour of the re-read assembly is compared on finitely many run-time argument stacks per program (search), not proved for all arguments; runs cut off by the 2 s execution limit are compared on the error only; programs whose original assembly gives different results on two runs (random numbers, clocks) are left out and counted",
-        "from_uasm on malformed texts: the mutation stream demands an error (never a panic, never a crash); mutated texts are read in a child process because a value whose shape does not fit its data crashes the reader (OPEN defect, known finding C17-read-segfault: `{\"push\":[[2,4294967296000],\"\"]}`)",
+        "from_uasm on malformed texts: the mutation stream demands an error (never a panic, never a crash); mutated texts are read in a child process so that a crash of the reader is a reported violation (uasm-read-crashes:<kind>) instead of the end of the stream; the texts that used to crash it (`{\"push\":[[2,4294967296000],\"\"]}`, repaired by /repo 61c09df) run first; in the value tie the model must refuse a malformed value text exactly when the implementation refuses it (shape/data mismatches, boxes given as sequences, unknown metadata fields, keys of the wrong length are silently dropped by both)",
         "constants that check_value already rejects in the ORIGINAL assembly (one in tests/map.ua: a fixed empty map whose keys are rows without elements, a limit of the validator) are skipped and counted (constants_malformed_already_in_the_original)",
     ]
     if not r.harness(["c17"]):
